@@ -32,6 +32,7 @@ func checkC04(c *Ctx) {
 	// every numbered delete transaction is recorded at the topic row (next number after a reload)
 	c.checkDelIdRecorded()
 	c.checkSavedTimestamp()
+	c.checkQueryBoundsOneToOne()
 }
 
 func (c *Ctx) checkHistoryReads() {
